@@ -166,6 +166,26 @@ Definition entry_tid (e : entry) : tid := let '(t, _, _, _) := e in t.
 Definition last_entry (t : tid) (log : list entry) : option entry :=
   find (fun e => Nat.eqb (entry_tid e) t) (rev log).
 
+(* order of linearization points in a trace, and the per-thread protocol
+   call -> acquire -> return -> call ... *)
+Definition is_acq (e : tid * label) : bool := match snd e with LAcq => true | _ => false end.
+Definition acq_tids (tr : trace) : list tid := map fst (filter is_acq tr).
+Definition tproj (t : tid) (tr : trace) : list label :=
+  map snd (filter (fun e => Nat.eqb (fst e) t) tr).
+Fixpoint proto (ph : nat) (ls : list label) : bool :=
+  match ls with
+  | [] => true
+  | l :: ls' =>
+      match ph, l with
+      | 0, LCall _ _ => proto 1 ls'
+      | 1, LAcq => proto 2 ls'
+      | 2, LRet _ => proto 0 ls'
+      | _, _ => false
+      end
+  end.
+Definition aphase (s : astate) : nat :=
+  match s with AIdle => 0 | APend _ _ => 1 | ADone _ _ => 2 end.
+
 (* ------------------------------------------------------------------ *)
 (* Executable scheduler, used to exhibit concrete runs by computation. *)
 Inductive action := ACall (o : Op) (a : Arg) | AAcq | AStep | ARet.
@@ -250,6 +270,11 @@ Arguments sim {St Arg Res Loc Op} g a.
 Arguments legal {St Arg Res Loc Op} bodies s0 log s.
 Arguments entry_tid {Arg Res Op} e.
 Arguments last_entry {Arg Res Op} t log.
+Arguments is_acq {Arg Res Op} e.
+Arguments acq_tids {Arg Res Op} tr.
+Arguments tproj {Arg Res Op} t tr.
+Arguments proto {Arg Res Op} ph ls.
+Arguments aphase {Arg Res Op} s.
 Arguments holdsb {St Arg Res Loc Op} modes ts.
 Arguments holdsWb {St Arg Res Loc Op} modes ts.
 Arguments can_acqb {St Arg Res Loc Op} modes n g m.
